@@ -34,6 +34,9 @@ POOL = [
     {"dynamics": [{"expression": "x' = -x*y", "initial_value": "1"}, {"expression": "y' = x - 1/2*y", "initial_value": "1/2"}], "parameters": {"tau": "2."}},
     {"dynamics": [{"expression": "I' = -I/tau", "initial_value": "1"}, {"expression": "V' = -V/tau + g*V**2 + E_L", "initial_value": "0"}]},
     {"dynamics": [{"expression": "x' = 3", "initial_value": "0"}]},
+    # valid but unusual spellings: whitespace in initial-value keys and around the expression
+    {"dynamics": [{"expression": "g'' = -g/tau**2 - 2*g'/tau", "initial_values": {" g'": "e/tau", "g ": "0"}}, {"expression": "  V' = -V/tau + g  ", "initial_value": "0"}]},
+    {"dynamics": [{"expression": "y''' = -6*y - 11*y' - 6*y''", "initial_values": {"y ''": "2", " y": "0", "y '": "1"}}], "parameters": {"tau": "2."}},
     # failing inputs
     {"dynamics": [{"expression": "x' = -x", "initial_values": {"x": "1", "x'": "0"}}]},               # malformed
     {"dynamics": [{"expression": "x'' = -x + 1", "initial_values": {"x": "1", "x'": "0"}}]},          # sys.exit (higher-order inhomogeneous)
